@@ -17,7 +17,17 @@ Theorem C06_push_forward_dF : push_forward_dF_stmt1 /\ push_forward_dF_stmt2 /\ 
 Proof. exact (conj push_forward_dF_ok1 (conj push_forward_dF_ok2 push_forward_dF_ok3)). Qed.
 Print Assumptions C06_push_forward_dF.
 
-(* computePushForwardDerivative(dS/dF, S(F), F) is the Jacobian of F |-> F.S(F).F^T, S(F) = S0 + X.F *)
-Theorem C06_push_forward_chain : push_forward_chain_stmt1 /\ push_forward_chain_stmt2 /\ push_forward_chain_stmt3.
-Proof. exact (conj push_forward_chain_ok1 (conj push_forward_chain_ok2 push_forward_chain_ok3)). Qed.
-Print Assumptions C06_push_forward_chain.
+(* computePushForwardDerivative(dS/dF, S(F), F) is the Jacobian of F |-> F.S(F).F^T, S(F) = S0 + X.F -- 1D and 2D (3D: Properties_C06t2.v, thorough tier) *)
+Theorem C06_push_forward_chain_1D_2D : push_forward_chain_stmt1 /\ push_forward_chain_stmt2.
+Proof. exact (conj push_forward_chain_ok1 push_forward_chain_ok2). Qed.
+Print Assumptions C06_push_forward_chain_1D_2D.
+
+(* computeKirchhoffStressDerivativeFromCauchyStressDerivative(ds, s(F), F) is the Jacobian of F |-> det(F) s(F), s(F) = s0 + X.F -- 1D and 2D (3D: Properties_C06t4.v, thorough tier) *)
+Theorem C06_kirchhoff_from_cauchy_1D_2D : kirchhoff_from_cauchy_stmt1 /\ kirchhoff_from_cauchy_stmt2.
+Proof. exact (conj kirchhoff_from_cauchy_ok1 kirchhoff_from_cauchy_ok2). Qed.
+Print Assumptions C06_kirchhoff_from_cauchy_1D_2D.
+
+(* computeCauchyStressDerivativeFromKirchhoffStressDerivative(dtau, tau(F)/det F, F) is the Jacobian of F |-> tau(F)/det(F), tau(F) = t0 + X.F (det F <> 0) -- 1D and 2D (3D: Properties_C06t5.v, thorough tier) *)
+Theorem C06_cauchy_from_kirchhoff_1D_2D : cauchy_from_kirchhoff_stmt1 /\ cauchy_from_kirchhoff_stmt2.
+Proof. exact (conj cauchy_from_kirchhoff_ok1 cauchy_from_kirchhoff_ok2). Qed.
+Print Assumptions C06_cauchy_from_kirchhoff_1D_2D.
